@@ -12,6 +12,13 @@
 //   norm   : call normalize() on the modified value after every op
 //   inplace: read the bounds with operator[] on the pool value itself (1) or on a copy (0)
 //   <op>   ::= (assume d <cst>) | (copy d s) | (join d a b) | (meet d a b) | (forget d x) | (top d)
+//            | (assignc d x k)      -- pool[d].assign(x, k)                 x := k
+//            | (assignv d x y k)    -- pool[d].assign(x, y + k)             x := y + k   (y = x allowed; not for itv)
+//            | (assignn d x y k)    -- pool[d].assign(x, -y + k)            x := -y + k  (y = x allowed; oct only)
+//            | (project d v...)     -- pool[d].project({v...})
+//            | (forgetv d v...)     -- pool[d].forget({v...})
+//   (the assignments are the ones expressible in the kind's constraint language: the reference
+//    model executes them exactly -- CrabModel/Dom/{ZonesOps,OctagonOps,ItvEnvOps}.lean, C03Rel)
 //   <cst>  ::= (ub x k) | (lb x k) | (diff x y k) | (sum x y k) | (nsum x y k)         -- inequalities
 //            | (equ x k) | (eqd x y k) | (eqs x y k)                                   -- one crab EQUALITY
 //              x ≤ k, -x ≤ k, x-y ≤ k, x+y ≤ k, -x-y ≤ k, x = k, x-y = k, x+y = k   (x = vI)
@@ -228,6 +235,8 @@ std::string eval_inner(const Sx &q) {
   z_number S(1);
   for (size_t oi = 1; oi < ops.size(); oi++)
     if (ops[oi][0].a == "assume") S = S + zabs(parse_cst(ops[oi][2]).c);
+    else if (ops[oi][0].a == "assignc" || ops[oi][0].a == "assignv" || ops[oi][0].a == "assignn")
+      S = S + zabs(z_number(ops[oi][ops[oi].size() - 1].a));
 
   std::ostringstream out;
   for (size_t oi = 1; oi < ops.size(); oi++) {
@@ -240,6 +249,15 @@ std::string eval_inner(const Sx &q) {
     else if (k == "meet") { Dom r = pool[std::stoul(op[2].a)] & pool[std::stoul(op[3].a)]; pool[d] = r; }
     else if (k == "forget") pool[d] -= var(vidx(op[2]));
     else if (k == "top") pool[d].set_to_top();
+    else if (k == "assignc") pool[d].assign(var(vidx(op[2])), z_lin_exp_t(z_number(op[3].a)));
+    else if (k == "assignv") pool[d].assign(var(vidx(op[2])), z_lin_exp_t(var(vidx(op[3]))) + z_lin_exp_t(z_number(op[4].a)));
+    else if (k == "assignn")
+      pool[d].assign(var(vidx(op[2])), z_lin_exp_t(z_number(-1), var(vidx(op[3]))) + z_lin_exp_t(z_number(op[4].a)));
+    else if (k == "project" || k == "forgetv") {
+      std::vector<z_var> vs;
+      for (size_t i = 2; i < op.size(); i++) vs.push_back(var(vidx(op[i])));
+      if (k == "project") pool[d].project(vs); else pool[d].forget(vs);
+    }
     if (norm) pool[d].normalize();
 
     const Dom &cd = pool[d];
@@ -366,6 +384,34 @@ struct G {
     if (k == "diff" || k == "eqd") return p[x] - p[y];
     if (k == "sum" || k == "eqs") return p[x] + p[y];
     return -p[x] - p[y];
+  }
+  // constant of an assignment: mostly the one that keeps the hidden point p a state of the value
+  int64_t asgconst(int64_t keep) { return r.below(3) != 0 ? keep : anyconst(); }
+  std::string assignc() {
+    unsigned x = r.below(nv);
+    return "(assignc D " + v(x) + " " + std::to_string(asgconst(p[x])) + ")";
+  }
+  // x := y + k ; one time in three y = x (a translation by a small / arbitrary constant)
+  std::string assignv() {
+    unsigned x = r.below(nv), y = r.below(nv);
+    if (nv >= 2 && r.below(3) != 0 && x == y) y = (x + 1) % nv;
+    int64_t k = (x == y) ? (r.coin() ? r.range(-3, 3) : anyconst()) : asgconst(p[x] - p[y]);
+    return "(assignv D " + v(x) + " " + v(y) + " " + std::to_string(k) + ")";
+  }
+  // x := -y + k
+  std::string assignn() {
+    unsigned x = r.below(nv), y = r.below(nv);
+    if (nv >= 2 && r.below(3) != 0 && x == y) y = (x + 1) % nv;
+    int64_t k = asgconst(p[x] + p[y]);
+    return "(assignn D " + v(x) + " " + v(y) + " " + std::to_string(k) + ")";
+  }
+  // a set of variables (possibly empty, possibly all)
+  std::string varset() {
+    std::string s;
+    unsigned bias = r.below(3); // 0: few, 1: half, 2: most
+    for (unsigned i = 0; i < nv; i++)
+      if (r.below(4) < bias + 1) s += " " + v(i);
+    return s;
   }
   std::string cst(bool satbias) {
     std::vector<std::string> ks = {"ub", "lb"};
@@ -517,13 +563,19 @@ std::string gen(Rng &r, const Args &a) {
       Q.pop_back();
       continue;
     }
-    if (k < 58) {
+    auto withd = [&](std::string s) { return s.replace(s.find(" D "), 3, " " + std::to_string(d) + " "); };
+    if (k < 50) {
       bool satbias = (profile == 2) ? r.below(4) == 0 : r.below(8) != 0;
       o << " (assume " << d << " " << g.cst(satbias) << ")";
-    } else if (k < 66) o << " (copy " << d << " " << r.below(NP) << ")";
+    } else if (k < 54) o << " " << withd(kind == "itv" ? g.assignc() : g.assignv());   // x := y + k
+    else if (k < 56) o << " " << withd(g.assignc());                                    // x := k
+    else if (k < 58) o << " " << withd(kind == "oct" ? g.assignn() : kind == "zone" ? g.assignv() : g.assignc()); // x := -y + k
+    else if (k < 66) o << " (copy " << d << " " << r.below(NP) << ")";
     else if (k < 78) o << " (join " << d << " " << r.below(NP) << " " << r.below(NP) << ")";
     else if (k < 88) o << " (meet " << d << " " << r.below(NP) << " " << r.below(NP) << ")";
-    else if (k < 98) o << " (forget " << d << " v" << r.below(nv) << ")";
+    else if (k < 94) o << " (forget " << d << " v" << r.below(nv) << ")";
+    else if (k < 96) o << " (forgetv " << d << g.varset() << ")";
+    else if (k < 98) o << " (project " << d << g.varset() << ")";
     else o << " (top " << d << ")";
   }
   o << "))";
